@@ -111,3 +111,22 @@ def f6_cancelled_slot_has_other_stores(case, bucket, detail):
     if not isinstance(case, dict):
         return False
     return _f6_case(case)
+
+
+# --------------------------------------------------------------------------- F8 (recursion depth on long programs)
+
+
+@predicate("f8_long_routine_recursion")
+def f8_long_routine_recursion(case, bucket, detail):
+    """F8: a routine with several hundred sequential blocks overflows the Python stack in pyteal's recursive graph
+    walks (addIncoming / validateTree / validateSlots / flatten ...). Input side: some routine of the recipe has
+    >= 300 nodes; failure side: the crash is a RecursionError (any other crash of a long program is still reported)."""
+    if not isinstance(case, dict) or not bucket.startswith("crash:RecursionError"):
+        return False
+    from .recipe import nodes as N
+
+    recipe = case.get("recipe")
+    if not isinstance(recipe, dict):
+        return False
+    sizes = [N.size(recipe["main"])] + [N.size(r["body"]) for r in recipe.get("routines", [])]
+    return max(sizes) >= 300
